@@ -337,7 +337,7 @@ def selftest(prop, traces, work):
     # (1)
     done1 = prop not in result_clauses
     done2 = done3 = False
-    done4, tries4, seen = False, 0, 0
+    done4, tries4, seen, na2 = False, 0, 0, 0
     tries2 = 0       # (a tree whose runs no longer conform to ParRun has no accepted run to corrupt: give up after a few)
     for tf in traces:
         for rid, lines in _run_events(tf):
@@ -379,11 +379,15 @@ def selftest(prop, traces, work):
                     done4 = True
             sched = prog["mode"] != "free" and prog["p"]["cs"] < 0
             calls = [i for i, e in enumerate(evs) if e["e"] == "call" and e.get("a", 0) >= 1 and e["s"] == 1]
-            if sched and not done2 and tries2 < 6 and len(calls) >= 2 and any(e["e"] == "end" and e["dstep"] == -1 for e in evs):
-                tries2 += 1
+            if (sched and not done2 and tries2 < 6 and na2 < 30 and len(calls) >= 2
+                    and any(e["e"] == "end" and e["dstep"] == -1 for e in evs)):
                 pth0 = os.path.join(work, "selftest2a.ndjson")
                 open(pth0, "w").write("".join(lines))
                 c0 = conformance(prop, "quick", [pth0], work)["strict_conformance"]
+                if c0["runs_accepted_by_ParRun"] + c0["runs_rejected"] == 0:
+                    na2 += 1          # the strict pass does not follow this program (endless source, digest-sized, ...)
+                else:
+                    tries2 += 1       # followed and rejected: a tree whose runs no longer conform
                 if c0["runs_accepted_by_ParRun"] == 1:
                     i = calls[len(calls) // 2]
                     e = dict(evs[i]); e["k"] = e["k"] + 1
@@ -403,8 +407,9 @@ def selftest(prop, traces, work):
                         c2 = conformance(prop, "quick", [pth], work)["strict_conformance"]
                         res["deleted_worker_end_rejected"] = c2["runs_rejected"] == 1
                         done3 = True
-            if done1 and done4 and ((done2 and done3) or tries2 >= 6):
+            if done1 and done4 and ((done2 and done3) or tries2 >= 6 or na2 >= 30):
                 if not done2:
-                    res["position_and_event_corruption"] = "skipped: none of the first scheduled runs conforms to ParRun on this tree"
+                    res["position_and_event_corruption"] = ("skipped: none of the first scheduled runs conforms to ParRun on this tree" if tries2 >= 6
+                                                            else "skipped: the strict pass follows none of the first 30 scheduled programs of this tier")
                 return res
     return res
